@@ -15,7 +15,7 @@
     Both end the sender's task; they differ in what the entrypoint still runs (C17/C18) and in
     how a held server is given back (see [eff]).
 
-    Source: /repo/src at the commit the check runs against (file:line are those of 2ecc068). *)
+    Source: /repo/src at the commit the check runs against (file:line are those of 68af9b4). *)
 From Coq Require Import ZArith NArith List Bool Lia.
 Import ListNotations.
 Local Open Scope Z_scope.
@@ -194,17 +194,27 @@ Definition get_startup (s : bytes) : sres * bytes :=
   | _ => (SMore, s)
   end.
 
-(** [parse_params] (messages.rs:184-219): C strings, EMPTY strings are skipped, the inner
-    [get_u8] loop runs off the end when the last byte is not NUL. *)
-Fixpoint segments (cur : bytes) (s : bytes) : list bytes :=
-  match s with
-  | [] => []                                   (* reached only when the last byte was NUL *)
-  | c :: r => if (c =? 0)%N then (match cur with [] => segments [] r | _ => rev cur :: segments [] r end)
-              else segments (c :: cur) r
+(** [parse_params] (messages.rs:184-216, after 5c1953d): name, value, name, value, ... as
+    NUL-terminated strings ([String::from_utf8_lossy]); the list ends at the first empty name or
+    at the end of the bytes; a value may be empty; a string without its terminator is
+    [Err(ClientBadStartup)], and so is an empty list.  Nothing in it can panic any more. *)
+Fixpoint params_walk (fuel : nat) (s : bytes) (acc : list (bytes * bytes)) : res (list (bytes * bytes)) :=
+  match fuel with
+  | O => Ok acc                                   (* not reached: every round consumes at least two bytes *)
+  | S f =>
+    match s with
+    | [] => Ok acc
+    | _ => match split0 s with
+           | None => Err
+           | Some ([], _) => Ok acc
+           | Some (name, r1) =>
+             match split0 r1 with
+             | None => Err
+             | Some (v, r2) => params_walk f r2 (acc ++ [(lossy name, lossy v)])
+             end
+           end
+    end
   end.
-
-Fixpoint pairs_of (l : list bytes) : list (bytes * bytes) :=
-  match l with k :: v :: r => (k, v) :: pairs_of r | _ => [] end.
 
 (** [HashMap::insert] in order: the LAST value of a repeated key wins. *)
 Fixpoint lookup_last (k : bytes) (l : list (bytes * bytes)) (acc : option bytes) : option bytes :=
@@ -214,12 +224,9 @@ Fixpoint lookup_last (k : bytes) (l : list (bytes * bytes)) (acc : option bytes)
   end.
 
 Definition parse_params (s : bytes) : res (list (bytes * bytes)) :=
-  match s with
-  | [] => Err                                                   (* no pair *)
-  | _ => if (last s 1 =? 0)%N then
-           let segs := segments [] s in
-           if (Nat.even (length segs) && (2 <=? length segs)%nat)%bool then Ok (pairs_of segs) else Err
-         else Panic
+  match params_walk (S (length s)) s [] with
+  | Ok [] => Err
+  | x => x
   end.
 
 Definition s_user : bytes := [117; 115; 101; 114]%N.                          (* "user" *)
